@@ -253,7 +253,8 @@ def _features(m, spec, desc, ctx, rng, feat):
         base = rng.permutation(nc)[:k]
         if q == 2:
             # ids that name no channel of the probe (the first one past the last channel, a far one): zero columns
-            base = np.r_[base[:2], [nc, nc + 93][desc['seed'][2] % 2]] if desc['seed'][2] % 2 else np.r_[nc, base[:2]]
+            far_ = [nc, nc + 93, 5000][desc['seed'][2] % 3]        # (5000: an id far beyond the probe, among a handful of requested ones)
+            base = np.r_[base[:2], far_] if desc['seed'][2] % 2 else np.r_[far_, base[:2]]
             k = len(base)
         perms = list(itertools.permutations(base.tolist()))
         for perm in perms[:6]:
@@ -264,7 +265,7 @@ def _features(m, spec, desc, ctx, rng, feat):
             form = (q + len(perm)) % 3            # ids / channels as arrays or plain lists
             idt = ['int64', 'int32', 'uint32', 'uint64', 'uint16'][(q + len(perm) + k) % 5]        # id arrays of any integer dtype, also read-only
             ids_arg = ids.astype(idt) if ns < 60000 or idt != 'uint16' else ids
-            ch_arg = ch.astype(['int64', 'int32', 'uint16', 'uint8'][(q + k) % 4])
+            ch_arg = ch.astype(['int64', 'int32', 'uint16', 'uint8'][(q + k) % 4] if ch.max(initial=0) < 256 else ['int64', 'int32', 'uint16'][(q + k) % 3])
             if (q + k) % 2:
                 ids_arg.flags.writeable = False
                 ch_arg.flags.writeable = False
